@@ -21,7 +21,10 @@ PID = "C17"
 DBNAME = "phreeqc.dat"
 RTOL = 1e-12
 FUEL = "(200 * 100)%nat"
-KNOWN_DEFECT_KEY = "C17:mid-start-beyond-end-aborts-process"
+DEFECTS = {
+    "mid": "C17:mid-start-beyond-end-aborts-process",
+    "punch_in_cv": "C17:punch-inside-calculate-values-segfaults",
+}
 
 
 def gen():
@@ -427,14 +430,14 @@ class Gen:
                     self.emit("GOTO @L%d@" % end)
                 self.emit("REM end on", end)
                 n -= 2 * m + 2
-            elif k < 0.95 and not ctx.get("sub") and not ctx.get("loopvars") and not ctx.get("wdepth"):
+            elif k < 0.95 and not ctx.get("sub") and not ctx.get("loopvars") and not ctx.get("wdepth") and not ctx.get("inbg"):
                 self.feat.add("backward_goto")
                 c = "cg"
                 top = self.new_id()
                 self.emit("%s = 0" % c)
                 self.emit("%s = %s + 1" % (c, c), top)
                 m = r.randint(1, 2)
-                self.block(m, depth + 1, ctx)
+                self.block(m, depth + 1, dict(ctx, inbg=True))
                 self.emit("IF %s < %d THEN %s@L%d@" % (c, r.randint(1, 3), r.choice(["", "GOTO "]), top))
                 n -= m + 3
             elif not ctx.get("sub") and not ctx.get("loopvars") and not ctx.get("wdepth") and depth == 0:
@@ -782,7 +785,9 @@ def parse_user_print(out):
         return None
     j = out.find("\n", i)
     k = out.find("\n-----", j)
-    return out[j + 1:k if k >= 0 else len(out)]
+    text = out[j + 1:k if k >= 0 else len(out)]
+    # warning_msg also writes into the output stream ("Zero divide ... Value set to zero" is documented behaviour)
+    return re.sub(r"WARNING: Zero divide in BASIC line\n[^\n]*\nValue set to zero\.\n", "", text)
 
 
 def fmt_print(v):
@@ -807,6 +812,8 @@ def compare_print(model_outs, text):
     if line:
         exp.append(line)
     got = [l for l in text.split("\n")]
+    if got and got[0].strip() == "":
+        got = got[1:]              # the blank line that follows the banner
     # drop trailing empty lines on both sides
     while got and got[-1].strip() == "":
         got.pop()
@@ -837,12 +844,16 @@ def judge(case, model, res):
     """-> (verdict, detail): verdict in ok | outside | VIOLATION"""
     host = case["host"]
     if res is None:
+        if model is not None and model[0]["kind"] == "nofuel":
+            return "outside", "does not terminate within the fuel (not run)"
         return "VIOLATION", "no result from the implementation"
-    if res.get("crash"):
-        return "VIOLATION", "the implementation crashed: " + (res.get("stderr") or "")[-300:]
     if model is None:
-        return "outside", "model evaluation failed"
+        return ("VIOLATION", "the implementation crashed") if res.get("crash") else ("outside", "model evaluation failed")
     m0 = model[0]
+    if res.get("crash"):
+        if m0["kind"] == "nofuel":
+            return "outside", "does not terminate within the fuel; the implementation ran out of resources"
+        return "VIOLATION", "the implementation crashed: " + (res.get("stderr") or "")[-300:]
     if res.get("timeout"):
         if m0["kind"] == "nofuel":
             return "outside", "does not terminate within the fuel (both)"
@@ -854,6 +865,8 @@ def judge(case, model, res):
         if rc == 0:
             return "VIOLATION", "reference evaluation ends with BASIC error (%s) but the run reported no error" % m0["msg"]
         return "ok", "error on both sides"
+    if host in ("put", "rate") and m0["save"] is None:
+        return ("ok", "error on both sides") if rc != 0 else ("VIOLATION", "nothing was SAVEd but the run reported no error")
     if rc != 0:
         return "VIOLATION", "run failed (%s) but the reference evaluation succeeds" % (res.get("err", "")[-300:].replace("\n", " | "))
     if host == "punch":
@@ -884,8 +897,6 @@ def judge(case, model, res):
         if not close(g, e):
             return "VIOLATION", "%s host value #%d = %r, reference %r" % (host, j, g, e)
     sv = m0["save"]
-    if sv is None:
-        return "VIOLATION", "reference evaluation saved nothing but the run succeeded"
     if host == "put":
         if not close(lead[0], sv):
             return "VIOLATION", "SAVE delivered %r to CALCULATE_VALUES, reference %r" % (lead[0], sv)
@@ -904,27 +915,36 @@ def case_key(case):
 
 
 def run_cases(ctx, cases):
-    jobs = []
+    """model first; programs the model cannot finish within its fuel are not handed to the implementation (they are
+    outside the premises and would only burn the time limit); the known hanging probe runs in its own batch"""
+    models, mlog = run_model(cases, 5)
+
+    def job(i, c):
+        return {"id": i, "db": DBNAME, "text": make_input(c["host"], c["lines"]), "flags": ["out"] if c["host"] == "print" else []}
+    main, risky = [], []
     for i, c in enumerate(cases):
-        jobs.append({"id": i, "db": DBNAME, "text": make_input(c["host"], c["lines"]), "flags": ["out"] if c["host"] == "print" else []})
+        m = models[i]
+        if m is not None and m[0]["kind"] == "nofuel" and not c.get("defect"):
+            continue
+        (risky if c.get("defect") else main).append(job(i, c))
     with cf.ThreadPoolExecutor(max_workers=2) as ex:
-        fm = ex.submit(run_model, cases, 5)
-        fi = ex.submit(vlib.run_inputs, jobs, 15, 8)
-        models, mlog = fm.result()
-        impl = fi.result()
+        f1 = ex.submit(vlib.run_inputs, main, 15, 8)
+        f2 = ex.submit(vlib.run_inputs, risky, 4, 4)
+        impl = dict(f1.result())
+        impl.update(f2.result())
     return models, impl, mlog
 
 
 def report(ctx, case, verdict, detail, model, res):
     if verdict != "VIOLATION":
         return
-    key = KNOWN_DEFECT_KEY if case.get("defect") else "C17:" + case_key(case)
+    key = DEFECTS[case["defect"]] if case.get("defect") else "C17:" + case_key(case)
     observed = {"rc": (res or {}).get("rc"), "err": ((res or {}).get("err") or "")[-400:], "crash": (res or {}).get("crash"),
                 "timeout": (res or {}).get("timeout"), "stderr": ((res or {}).get("stderr") or "")[-400:],
                 "row": table_row(res or {}) if res else None}
     ctx.violation(key, "%s program (%s): %s" % (case["host"], case.get("origin", "generated"), detail),
                   {"kind": "input", "host": case["host"], "lines": case["lines"], "input_text": make_input(case["host"], case["lines"]),
-                   "database": DBNAME, "observed": observed, "expected": model, "defect": bool(case.get("defect"))})
+                   "database": DBNAME, "observed": observed, "expected": model, "defect": case.get("defect") or ""})
 
 
 def run(ctx):
@@ -943,7 +963,7 @@ def run(ctx):
     if ctx.replay:
         rp = json.load(open(ctx.replay))
         if rp.get("kind") == "input":
-            cases.append({"host": rp["host"], "lines": rp["lines"], "origin": "replay", "defect": rp.get("defect", False)})
+            cases.append({"host": rp["host"], "lines": rp["lines"], "origin": "replay", "defect": rp.get("defect") or None})
     else:
         for p in CORPUS:
             for h in ("punch",):
@@ -951,9 +971,14 @@ def run(ctx):
         for p in MALFORMED_CORPUS:
             cases.append({"host": "punch", "lines": p, "origin": "malformed corpus"})
         for p in MALFORMED_CORPUS[::4]:
-            cases.append({"host": ctx.rng.choice(["put", "rate", "print"]), "lines": p, "origin": "malformed corpus"})
+            h = ctx.rng.choice(["put", "rate", "print"])
+            q = [l.replace("PUNCH", "PRINT") for l in p]      # PUNCH is only meaningful in USER_PUNCH (see the defect probes)
+            if h != "print":
+                q = q + ["9000 SAVE 0.25" + (" * TIME" if h == "rate" else "")]
+            cases.append({"host": h, "lines": q, "origin": "malformed corpus"})
         # the known crash (reported as a finding with a stable key, see notes/C17.md)
-        cases.append({"host": "punch", "lines": ["10 PUNCH MID$(\"abc\", 7, 2)"], "origin": "defect probe", "defect": True})
+        cases.append({"host": "punch", "lines": ["10 PUNCH MID$(\"abc\", 7, 2)"], "origin": "defect probe", "defect": "mid"})
+        cases.append({"host": "put", "lines": ["10 PUNCH 1", "20 SAVE 1"], "origin": "defect probe", "defect": "punch_in_cv"})
         nprog = ctx.n(150, 1500)
         feats = {}
         for k in range(nprog):
@@ -980,7 +1005,10 @@ def run(ctx):
         if bad:
             ctx.notes.append("generator variable names became keywords: %r" % sorted(bad))
 
+    import time
+    t0 = time.time()
     models, impl, mlog = run_cases(ctx, cases)
+    ctx.extra["timing_s"] = {"coq_stage": round(t0 - ctx.t0, 1), "correspondence": round(time.time() - t0, 1)}
     if mlog:
         ctx.obligation("model evaluation (coqc cases.v)", False, mlog)
     stats = {"ok": 0, "outside": 0, "VIOLATION": 0, "error_both": 0, "values_compared": 0, "bit_exact": 0}
